@@ -49,10 +49,12 @@ EoseOK(H, p, N) ==
   /\ EosePos(H, s, k) = {p}                                         \* never a second one
   /\ \A i \in 1..N : \E q \in Before(H, p) :                        \* after every child's own EOSE
         Is(H[q], "emits", "EOSE") /\ H[q].ch = i /\ H[q].m.sub = s /\ ChInst(H, q, i, s) = k
-  /\ ~ \E i \in 1..N, q1, q2 \in Before(H, p) :                     \* none if closed before a child's EOSE
-        /\ q1 < q2
-        /\ Is(H[q1], "chrecv", "CLOSE") /\ H[q1].ch = i /\ H[q1].m.sub = s /\ ChInst(H, q1, i, s) = k
-        /\ Is(H[q2], "emits", "EOSE")   /\ H[q2].ch = i /\ H[q2].m.sub = s /\ ChInst(H, q2, i, s) = k
+  \* none if the client closed meanwhile: the merge clears its state before it hands the CLOSE to
+  \* the first child, so an EOSE that any child starts to emit after any child has received the
+  \* CLOSE is processed after the state is gone, and the merged EOSE needs all of them
+  /\ LET closes == {q \in Before(H, p) : Is(H[q], "chrecv", "CLOSE") /\ H[q].m.sub = s /\ ChInst(H, q, H[q].ch, s) = k}
+         eoses  == {q \in Before(H, p) : Is(H[q], "emits", "EOSE")   /\ H[q].m.sub = s /\ ChInst(H, q, H[q].ch, s) = k}
+     IN ~ \E q1 \in closes : \E q2 \in eoses : q1 < q2
 
 ClosedBefore(H, p, s, k) == \E c \in Before(H, p) : Is(H[c], "csnd", "CLOSE") /\ H[c].m.sub = s /\ CInst(H, c, s) = k
 
